@@ -5,6 +5,7 @@ import sys
 
 sys.path.insert(0, os.path.dirname(os.path.dirname(os.path.abspath(__file__))))
 from verif_static.core import run_check, AnalysisError, VERIF  # noqa
+from verif_static.norm import same  # noqa
 from verif_static import model as M, cfg as C, affine as A  # noqa
 from verif_static.poly import Poly, from_ast  # noqa
 
@@ -247,11 +248,19 @@ def rule_gj(chk):
             tvar = U(lp.target)
             # column index of the store as a polynomial; local aliases (backCol = rb + augCol - backColr - 1) substituted
             loc = {}
-            for a2 in lp.body:
-                if isinstance(a2, ast.Assign) and isinstance(a2.targets[0], ast.Name) and a2.lineno < asg.lineno:
-                    pv2 = P(a2.value, loc)
-                    if pv2 is not None:
-                        loc[a2.targets[0].id] = pv2
+            chain = []
+            cur_ = lp
+            while cur_ is not None and cur_ is not fn:
+                if isinstance(cur_, (ast.For, ast.If)):
+                    chain.append(cur_)
+                cur_ = getattr(cur_, 'parent', None)
+            for holder_ in reversed(chain):        # outermost first: row offsets hoisted into the enclosing loop (rowb = nt*rb) are seen by the inner ones
+                for a2 in list(holder_.body) + list(getattr(holder_, 'orelse', [])):
+                    if isinstance(a2, ast.Assign) and isinstance(a2.targets[0], ast.Name) and a2.lineno < asg.lineno:
+                        pv2 = P(a2.value, loc)
+                        # row / column *indices* of the enclosing loops keep their names (they are what the rule talks about); products with the row width are offsets
+                        if pv2 is not None and (holder_ is lp or any(sum(e_ for v_, e_ in mono) >= 2 for mono in pv2.t)):
+                            loc[a2.targets[0].id] = pv2
             idx = P(asg.targets[0].slice, loc)
             if idx is None:
                 continue
@@ -275,7 +284,7 @@ def rule_gj(chk):
                 if isinstance(den_, ast.Subscript) and U(den_.value) == 'm':
                     dens.append(den_)
             for den_ in dens:
-                di = P(den_.slice)
+                di = P(den_.slice, loc)
                 for r_ in sorted(di.atoms() - set(['n', 'nb'])) if di is not None else []:
                     if di == width * Poly.var(r_) + Poly.var(r_):
                         piv_row = r_
@@ -366,54 +375,87 @@ def loops_over(stmt, fn):
 def rule_eigen_wrapper(chk):
     """the scaling wrapper around tred2/tql2: the zero-matrix shortcut is taken only when every entry is zero, every entry is scaled, every eigenvalue scaled back"""
     t = M.cy(L3)
-    fn = M.find_func(t, 'eigen_decomposition')
+    from verif_static import paths as PT
+    # decided on the function with its helpers inlined (everything but the three routines it wraps), per path through it with every loop entered once
+    fn = M.inlined_function(t, M.find_func(t, 'eigen_decomposition'), keep=('zero_matrix_case', 'tred2', 'tql2', 'fabs', 'abs'))
     M.set_parents(fn)
     who = 'eigen_decomposition'
     full = ('range(n)', 'range(3)')
-    acc = [a for a in ast.walk(fn) if isinstance(a, ast.AugAssign) and isinstance(a.op, ast.Add) and U(a.target) == 's']
-    ok = len(acc) == 1
-    if ok:
-        a = acc[0]
-        lp = loops_over(a, fn)
-        v = a.value
-        ok = isinstance(v, ast.Call) and M.call_name(v) in ('fabs', 'abs') and isinstance(v.args[0], ast.Subscript) and isinstance(v.args[0].value, ast.Subscript)
-        if ok:
-            i1, i2 = U(v.args[0].value.slice), U(v.args[0].slice)
-            base = U(v.args[0].value.value)
-            ok = i1 != i2 and lp.get(i1) in full and lp.get(i2) in full and base in ('A', 'V')
-            if ok and base == 'V':
-                cp = [x for x in ast.walk(fn) if isinstance(x, ast.Assign) and U(x.targets[0]) == 'V[%s][%s]' % (i1, i2) and U(x.value) == 'A[%s][%s]' % (i1, i2) and x.lineno < a.lineno]
-                ok = bool(cp)
-    chk.decide(ok, 'eigen-scaling-wrapper', 'scale-sums-every-entry', node=acc[0] if acc else fn, file=L3, func=who,
+    allp = PT.enumerate_paths(M.docstring_stripped(fn.body))
+    pths = [p_ for p_ in allp if all(e.truth for e in p_ if e.kind == 'loop')]
+    res = {'sum': None, 'seed': None, 'guard': None, 'scaled': None, 'order': None, 'back': None}
+    nzero = nwork = 0
+
+    def cover(node, *idx):
+        lp = loops_over(node, fn)
+        return len(set(idx)) == len(idx) and all(lp.get(i_) in full for i_ in idx)
+    for p_ in pths:
+        cl = PT.calls_on(p_)
+        zc = [(i, c) for i, c, cal, env in cl if cal == 'zero_matrix_case']
+        wk = [(i, c, cal) for i, c, cal, env in cl if cal in ('tred2', 'tql2')]
+        # the test that separates the two: `<S> == 0` on a name S
+        tests = [(i, PT.resolve(e.node, e.env), e.truth) for i, e in enumerate(p_) if e.kind == 'cond']
+        sel = [(i, t_, tr) for i, t_, tr in tests if isinstance(t_, ast.Compare) and len(t_.ops) == 1 and isinstance(t_.ops[0], (ast.Eq, ast.NotEq)) and isinstance(t_.left, ast.Name)
+               and isinstance(t_.comparators[0], ast.Constant) and t_.comparators[0].value == 0]
+        if len(sel) != 1:
+            res['guard'] = res['guard'] or 'a path does not decide `s == 0` exactly once'
+            continue
+        gi, gt, gtruth = sel[0]
+        S = gt.left.id
+        is_zero = gtruth == isinstance(gt.ops[0], ast.Eq)
+        # what S is: a running sum seeded with 0 of |entry| over all nine entries, completed before the test
+        sto = [(i, e.node) for i, e in enumerate(p_) if e.kind == 'stmt' and isinstance(e.node, (ast.Assign, ast.AnnAssign, ast.AugAssign))
+               and U(e.node.targets[0] if isinstance(e.node, ast.Assign) else e.node.target) == S]
+        if not sto or not (isinstance(sto[0][1], (ast.Assign, ast.AnnAssign)) and isinstance(sto[0][1].value, ast.Constant) and sto[0][1].value.value == 0):
+            res['seed'] = res['seed'] or 'the sum is not initialised to 0'
+        accs = [(i, n_) for i, n_ in sto[1:]]
+        ok_sum = len(accs) == 1 and isinstance(accs[0][1], ast.AugAssign) and isinstance(accs[0][1].op, ast.Add) and accs[0][0] < gi
+        if ok_sum:
+            v = accs[0][1].value
+            ok_sum = isinstance(v, ast.Call) and M.call_name(v) in ('fabs', 'abs') and isinstance(v.args[0], ast.Subscript) and isinstance(v.args[0].value, ast.Subscript)
+            if ok_sum:
+                i1, i2 = U(v.args[0].value.slice), U(v.args[0].slice)
+                base = U(v.args[0].value.value)
+                ok_sum = cover(accs[0][1], i1, i2) and base in ('A', 'V')
+                if ok_sum and base == 'V':
+                    ok_sum = any(e.kind == 'stmt' and isinstance(e.node, ast.Assign) and U(e.node.targets[0]) == 'V[%s][%s]' % (i1, i2) and U(e.node.value) == 'A[%s][%s]' % (i1, i2)
+                                 for e in p_[:accs[0][0]])
+        if not ok_sum:
+            res['sum'] = res['sum'] or 'partial or different sum'
+        if is_zero:
+            nzero += 1
+            if len(zc) != 1 or [U(x) for x in zc[0][1].args] != ['V', 'd'] or wk or zc[0][0] < gi:
+                res['guard'] = res['guard'] or 'the all-zero branch does not just call zero_matrix_case(V, d)'
+            continue
+        nwork += 1
+        if zc:
+            res['guard'] = res['guard'] or 'zero_matrix_case is called for a non-zero matrix'
+        div = [(i, e.node) for i, e in enumerate(p_) if e.kind == 'stmt' and isinstance(e.node, ast.AugAssign) and isinstance(e.node.op, ast.Div) and U(PT.resolve(e.node.value, e.env)) == S]
+        okd = len(div) == 1 and isinstance(div[0][1].target, ast.Subscript) and isinstance(div[0][1].target.value, ast.Subscript) and U(div[0][1].target.value.value) == 'V' and \
+            cover(div[0][1], U(div[0][1].target.value.slice), U(div[0][1].target.slice)) and div[0][0] > gi
+        if not okd:
+            res['scaled'] = res['scaled'] or 'V[i][j] /= s does not cover all entries'
+        names = [cal for i, c, cal in wk]
+        if names != ['tred2', 'tql2'] or not all([U(x) for x in c.args][:2] == ['V', 'd'] for i, c, cal in wk) or (okd and wk[0][0] < div[0][0]):
+            res['order'] = res['order'] or 'calls %s' % names
+        mul = [(i, e.node) for i, e in enumerate(p_) if e.kind == 'stmt' and isinstance(e.node, ast.AugAssign) and isinstance(e.node.op, ast.Mult) and U(PT.resolve(e.node.value, e.env)) == S]
+        okm = len(mul) == 1 and isinstance(mul[0][1].target, ast.Subscript) and U(mul[0][1].target.value) == 'd' and cover(mul[0][1], U(mul[0][1].target.slice)) and \
+            bool(wk) and mul[0][0] > max(i for i, c, cal in wk)
+        if not okm:
+            res['back'] = res['back'] or 'eigenvalues not all multiplied by s after the iteration'
+    if not (nzero and nwork):
+        res['guard'] = res['guard'] or 'no path takes the shortcut / no path does the work'
+    chk.decide(res['sum'] is None, 'eigen-scaling-wrapper', 'scale-sums-every-entry', node=fn, file=L3, func=who,
                detail_bad='s must be the sum of |A[i][j]| over all nine entries: it decides `s == 0` (zero-matrix shortcut) - a partial sum sends non-zero matrices (e.g. pure shear, '
                           'zero diagonal) to the shortcut, which returns d = 0, V = I', detail_ok='s += fabs(A[i][j]) for all i, j')
-    init = [x for x in fn.body if isinstance(x, (ast.AnnAssign, ast.Assign)) and U(x.target if isinstance(x, ast.AnnAssign) else x.targets[0]) == 's']
-    chk.decide(bool(init) and isinstance(init[0].value, ast.Constant) and init[0].value.value == 0, 'eigen-scaling-wrapper', 'scale-seeded-with-zero', node=init[0] if init else fn, file=L3, func=who,
-               detail_bad='s is not initialised to 0', detail_ok='s = 0.0')
-    br = [i for i in fn.body if isinstance(i, ast.If)]
-    ok = len(br) == 1 and U(br[0].test).replace(' ', '') in ('s==0', 's==0.0') and len(br[0].body) == 1 and isinstance(br[0].body[0], ast.Expr) and \
-        M.call_name(br[0].body[0].value) == 'zero_matrix_case' and [U(x) for x in br[0].body[0].value.args] == ['V', 'd']
-    chk.decide(ok, 'eigen-scaling-wrapper', 'zero-shortcut-guard', node=br[0] if br else fn, file=L3, func=who, detail_bad='the shortcut must be `if s == 0: zero_matrix_case(V, d)`',
+    chk.decide(res['seed'] is None, 'eigen-scaling-wrapper', 'scale-seeded-with-zero', node=fn, file=L3, func=who, detail_bad='s is not initialised to 0', detail_ok='s = 0.0')
+    chk.decide(res['guard'] is None, 'eigen-scaling-wrapper', 'zero-shortcut-guard', node=fn, file=L3, func=who, detail_bad='the shortcut must be `if s == 0: zero_matrix_case(V, d)`: %s' % res['guard'],
                detail_ok='if s == 0: zero_matrix_case(V, d)')
-    if br:
-        els = br[0].orelse
-        div = [a for s2 in els for a in ast.walk(s2) if isinstance(a, ast.AugAssign) and isinstance(a.op, ast.Div) and U(a.value) == 's']
-        ok = len(div) == 1 and isinstance(div[0].target, ast.Subscript) and isinstance(div[0].target.value, ast.Subscript) and U(div[0].target.value.value) == 'V'
-        if ok:
-            lp = loops_over(div[0], fn)
-            i1, i2 = U(div[0].target.value.slice), U(div[0].target.slice)
-            ok = i1 != i2 and lp.get(i1) in full and lp.get(i2) in full
-        chk.decide(ok, 'eigen-scaling-wrapper', 'every-entry-scaled', node=div[0] if div else br[0], file=L3, func=who, detail_bad='V[i][j] /= s must cover all entries', detail_ok='V[i][j] /= s for all i, j')
-        calls = [c for s2 in els for c in M.calls(s2) if M.call_name(c) in ('tred2', 'tql2')]
-        ok = [M.call_name(c) for c in sorted(calls, key=lambda c: c.lineno)] == ['tred2', 'tql2'] and all([U(x) for x in c.args][:2] == ['V', 'd'] for c in calls) and \
-            all(M.enclosing(c, (ast.For, ast.If, ast.While)) is br[0] for c in calls)
-        chk.decide(ok, 'eigen-scaling-wrapper', 'tred2-then-tql2', node=calls[0] if calls else br[0], file=L3, func=who, detail_bad='tridiagonalisation must be followed by the QL iteration on the same V, d',
-                   detail_ok='tred2(V, d, e); tql2(V, d, e)')
-        mul = [a for s2 in els for a in ast.walk(s2) if isinstance(a, ast.AugAssign) and isinstance(a.op, ast.Mult) and U(a.value) == 's']
-        ok = len(mul) == 1 and isinstance(mul[0].target, ast.Subscript) and U(mul[0].target.value) == 'd' and loops_over(mul[0], fn).get(U(mul[0].target.slice)) in full and \
-            bool(calls) and mul[0].lineno > max(c.lineno for c in calls)
-        chk.decide(ok, 'eigen-scaling-wrapper', 'eigenvalues-scaled-back', node=mul[0] if mul else br[0], file=L3, func=who, detail_bad='every eigenvalue must be multiplied by s after the iteration',
-                   detail_ok='d[i] *= s for all i')
+    chk.decide(res['scaled'] is None, 'eigen-scaling-wrapper', 'every-entry-scaled', node=fn, file=L3, func=who, detail_bad='V[i][j] /= s must cover all entries', detail_ok='V[i][j] /= s for all i, j')
+    chk.decide(res['order'] is None, 'eigen-scaling-wrapper', 'tred2-then-tql2', node=fn, file=L3, func=who, detail_bad='tridiagonalisation must be followed by the QL iteration on the same V, d: %s' % res['order'],
+               detail_ok='tred2(V, d, e); tql2(V, d, e)')
+    chk.decide(res['back'] is None, 'eigen-scaling-wrapper', 'eigenvalues-scaled-back', node=fn, file=L3, func=who, detail_bad='every eigenvalue must be multiplied by s after the iteration',
+               detail_ok='d[i] *= s for all i')
     # tql2: the search for a negligible sub-diagonal entry stops at the sentinel e[n-1] = 0 for EVERY tst1 >= 0 (tst1 is 0 when the leading entries vanish),
     # which needs a non-strict comparison; otherwise m runs to n and e[n] / d[n] are read and divided by
     q = M.find_func(t, 'tql2')
@@ -433,6 +475,39 @@ def rule_eigen_wrapper(chk):
                detail_bad='the scan `while m < n` must stop at the sentinel e[n-1] = 0 through `fabs(e[m]) <= eps*tst1`; with a strict `<` it does not when tst1 == 0 (zero leading '
                           'diagonal and sub-diagonal): m reaches n, the QL step reads past the arrays and divides by zero - the matrix is returned undiagonalised',
                detail_ok='e[n-1] = 0 and a non-strict test: the scan always stops inside the array')
+    # tql2: the implicit shift h is accumulated in f and f is added back to every eigenvalue when it is finalised, so within an iteration h must have been taken off every
+    # eigenvalue that is not recomputed explicitly there - d[l], d[l+1] are, the rest is d[l+2 .. n-1] whatever the size m of the unreduced block
+    M.set_parents(q)
+    accum = [a for a in ast.walk(q) if isinstance(a, ast.AugAssign) and isinstance(a.op, ast.Add) and isinstance(a.target, ast.Name) and isinstance(a.value, ast.Name)
+             and any(isinstance(b, (ast.Assign, ast.AugAssign)) and isinstance(b.targets[0] if isinstance(b, ast.Assign) else b.target, ast.Subscript)
+                     and U((b.targets[0] if isinstance(b, ast.Assign) else b.target).value) == 'd' and a.target.id in [x.id for x in ast.walk(b.value) if isinstance(x, ast.Name)]
+                     for b in ast.walk(q))]
+    oks, whys = bool(accum), 'the accumulated shift (f += h, added back as d[l] + f) was not found'
+    for a in accum:
+        H = a.value.id
+        outer = None
+        cur = a
+        while getattr(cur, 'parent', None) is not None:
+            cur = cur.parent
+            if isinstance(cur, ast.For) and isinstance(cur.target, ast.Name) and U(cur.iter).replace(' ', '') in full:
+                outer = cur
+        subs = [x for x in ast.walk(q) if isinstance(x, ast.AugAssign) and isinstance(x.op, ast.Sub) and isinstance(x.target, ast.Subscript) and U(x.target.value) == 'd' and U(x.value) == H]
+        if outer is None or len(subs) != 1:
+            oks, whys = False, '%d statements take %s off the eigenvalues' % (len(subs), H)
+            continue
+        L = outer.target.id
+        lp = M.enclosing(subs[0], (ast.For,))
+        rng = lp.iter.args if lp is not None and isinstance(lp.iter, ast.Call) and U(lp.iter.func) == 'range' else []
+        if not (lp is not None and U(subs[0].target.slice) == U(lp.target) and len(rng) == 2 and same(rng[0], '%s+2' % L) and U(rng[1]).replace(' ', '') in ('n', '3')):
+            oks, whys = False, 'the shift %s is taken off d[%s] for %s in %s only' % (H, U(lp.target) if lp is not None else '?', U(lp.target) if lp is not None else '?', U(lp.iter) if lp is not None else '?')
+            continue
+        expl = set(U(b.targets[0].slice).replace(' ', '') for b in ast.walk(outer) if isinstance(b, ast.Assign) and isinstance(b.targets[0], ast.Subscript) and U(b.targets[0].value) == 'd'
+                   and b.lineno < subs[0].lineno)
+        if not set([L, L + '+1']) <= expl:
+            oks, whys = False, 'd[%s] and d[%s+1] are not recomputed before the shift of the others' % (L, L)
+    chk.decide(oks, 'eigen-scaling-wrapper', 'tql2:shift-taken-off-every-remaining-eigenvalue', node=accum[0] if accum else q, file=L3, func='tql2',
+               detail_bad='%s: f is added back to every eigenvalue finalised later, so an eigenvalue outside the shifted range comes out too large by f (a block-diagonal matrix: the '
+                          'decoupled last entry)' % whys, detail_ok='d[i] -= h for i in [l+2, n); f += h; d[l], d[l+1] recomputed')
     z = M.find_func(t, 'zero_matrix_case')
     M.set_parents(z)
     dz = [a for a in ast.walk(z) if isinstance(a, ast.Assign) and isinstance(a.targets[0], ast.Subscript) and U(a.targets[0].value) == 'd']
@@ -567,6 +642,46 @@ def rule_tred2_scaling(chk):
     chk.floor('tred2 sums of squares', n, 1)
 
 
+def rule_declared_types(chk):
+    """Python and the transpiled code compute the same numbers: a local declared for the transpiler must be able to hold what the Python code keeps in it - nothing
+    that carries a matrix entry / a quotient may be declared 'float' (single precision in C) or an integer type (truncation)"""
+    t = M.py(LA)
+    n = 0
+    INTS = ('int', 'long', 'unsigned int', 'uint', 'size_t', 'unsigned long')
+    for fn in [f for f in t.body if isinstance(f, ast.FunctionDef)]:
+        decl = {}
+        for a in ast.walk(fn):
+            if isinstance(a, ast.Assign) and isinstance(a.value, ast.Call) and M.call_name(a.value) == 'declare' and a.value.args and isinstance(a.value.args[0], ast.Constant):
+                ty = str(a.value.args[0].value).strip()
+                tg = a.targets[0]
+                for x in (tg.elts if isinstance(tg, ast.Tuple) else [tg]):
+                    if isinstance(x, ast.Name):
+                        decl[x.id] = (ty, a)
+        if not decl:
+            continue
+        n += 1
+        bad = None
+        for nm, (ty, node) in sorted(decl.items()):
+            if ty == 'float' or ty.startswith('matrix') and 'float' in ty:
+                bad = bad or (node, "`%s` is declared '%s': single precision in the transpiled code, double precision in Python" % (nm, ty))
+        # integer-declared names only ever receive integer expressions
+        intn = set(k for k, (ty, nd) in decl.items() if ty in INTS) | set(a.arg for a in fn.args.args if a.arg in ('n', 'nb', 'nrows', 'ncols', 'na', 'dim'))
+        for a in ast.walk(fn):
+            if isinstance(a, (ast.Assign, ast.AugAssign)):
+                tg = a.targets[0] if isinstance(a, ast.Assign) else a.target
+                if isinstance(tg, ast.Name) and tg.id in decl and decl[tg.id][0] in INTS and not (isinstance(a.value, ast.Call) and M.call_name(a.value) == 'declare'):
+                    v = a.value
+                    fl = [x for x in ast.walk(v) if isinstance(x, ast.Subscript) or (isinstance(x, ast.BinOp) and isinstance(x.op, ast.Div)) or
+                          (isinstance(x, ast.Constant) and isinstance(x.value, float)) or (isinstance(x, ast.Name) and x.id not in intn) or
+                          (isinstance(x, ast.Call) and M.call_name(x) not in ('int', 'len', 'range', 'abs', 'min', 'max'))]
+                    if fl:
+                        bad = bad or (a, "`%s` is declared '%s' but receives %s" % (tg.id, decl[tg.id][0], U(v)))
+        chk.decide(bad is None, 'helper-signature', 'declared-types:%s' % fn.name, node=bad[0] if bad else fn, file=LA, func=fn.name,
+                   detail_bad='%s - the transpiled helper computes different numbers from the Python one' % (bad[1] if bad else ''),
+                   detail_ok='%d declared locals: indices are integers, nothing is single precision' % len(decl))
+    chk.floor('helpers with declared locals', n, 5)
+
+
 def main(chk):
     chk.explanation = ('Affine access signatures (E7) of the five helpers compared with definitional forms kept in '
                        'fixtures/linalg_ref.py (other counter names and loop orders); structural rules for gj_solve: the arg-max '
@@ -574,6 +689,7 @@ def main(chk):
                        'exchange of whole augmented rows, a swap of congruent locations is a no-op, division guarded by a '
                        'near-zero test, return discipline, result extraction signature.')
     rule_helpers(chk)
+    rule_declared_types(chk)
     rule_gj(chk)
     rule_returns(chk)
     rule_eigen_wrapper(chk)
